@@ -6,7 +6,21 @@ SPEC = {
     "corr_name": "GqlTyping.Typing.advertised / GqlTyping.Parse.prepare vs introspection.ComputeSchemaJSON / graphql.PrepareQuery on generated schemas",
     "coq_modules": ["GqlTyping.Check14"],
     "harness_timeout": {"quick": 600, "thorough": 3000},
-    "trusted_base": [],
-    "assumptions": [],
-    "manifest": {"text": "", "note": "", "technique": ""},
+    "trusted_base": [
+        "Coq 8.16.1 kernel and vm_compute (no native_compute); Print Assumptions: closed under the global context",
+        "hand-written models: GqlTyping/Parse.v prepare (graphql/executor.go PrepareQuery 109-204, tied to the code by the verdict correspondence on every generated query), GqlTyping/Typing.v advertised + scalar table (tied by the comparison with introspection.ComputeSchemaJSON), reference evaluator eval/expand (NOT compared with the executor: C01's subject; tied to the code only through the conformance oracle)",
+        "Go harness harness/cmd/c14 + harness/pkg/gqlty: schema generator (reflect.StructOf / reflect.MakeFunc), walker of the built graphql.Schema, parser of the introspection JSON, conformance function derived from that JSON, child-process isolation",
+        "graphql-go's parser, encoding/json, reflect as third-party",
+    ],
+    "assumptions": [
+        "resolver results are well-typed (has_type): what Go's type system and the builder's non-null check on resolver results guarantee; resolvers do not fail",
+        "argument parsing is outside the model (C18): generated queries pass valid arguments",
+        "one alias names one field within a query (generator); the opposite case is the known finding alias-shared-by-different-fields",
+        "list entries may be null whatever is advertised (exempted by the property); __key entries are exempt",
+    ],
+    "manifest": {
+        "text": "Coq theorems (Props/C14.v): every result of the reference evaluator on well-typed data conforms to the advertised type (fields exactly as selected, lists, scalar JSON kind from the scalar table, enum values, null only under nullable types or as list entries); an ill-formed spot in any applicable part makes PrepareQuery fail (proved for the traversal without the memo of C15-fix-4: _partial); validation never crashes. On every run 240 generated schemas (reflect.StructOf objects, every scalar shape, enums, text marshalers, unions, FieldFuncs in all signature forms) are built, introspection.ComputeSchemaJSON is compared with the model's rendering of the walked built schema, PrepareQuery's verdict with the model's on 6 well-/ill-formed queries per schema, and every response is checked by a conformance function derived from the introspection JSON alone.",
+        "note": "Progress (validated query never fails for a shape reason) is NOT proved for the evaluator; it is checked by the oracle (validated generated queries must execute without error). Completeness of rejection is proved without the PrepareQuery memo only; the memoised model is compared with the original model and with graphql.PrepareQuery on every generated query. The evaluator is not compared with the executor (C01). Trusted: Coq kernel, the models, the harness, graphql-go, encoding/json.",
+        "technique": "Coq proof over executable model + differential correspondence (introspection JSON, PrepareQuery verdicts) + conformance oracle derived from the introspection JSON on generated schemas",
+    },
 }
